@@ -14,6 +14,11 @@ def run(ctx):
     prog = ctx.prog
     fi = prog.func(PC, "LevelDataSelector.__call__", P)
     site = fi.site
+    # every selected level is searched (finer levels are not nested in the *cell-centre* bounds of coarser boxes)
+    nlr = formulas.rule_level_range(ctx, f"{P}.LEVEL-RANGE", fi, exceptions={
+        "range(load_lv_low, load_lv_hi + 1)": "between-boxes case: loads only the levels that hold the neighbouring "
+                                              "boxes (this case is not decided, DESIGN §4.C19)"})
+    ctx.floor("level loops of the point query", nlr, 1)
     # point -> index formula (two sites), with the dx of the level that is read
     assigns = [n for n in walk_no_nested(fi.node) if isinstance(n, ast.Assign) and norm(n.targets[0]) == "point_idx"]
     ctx.check(len(assigns) == 2, f"{P}.INDEX-FORMULA", site, "point -> index conversion in the single-box case and in the "
